@@ -1,6 +1,6 @@
 SPECIFICATION Spec
 CONSTANTS
-  MaxH = 1
+  MaxH = 2
   Comps = {0, 1, 2}
   Rels = {1, 2}
   Sized = {0, 1}
@@ -8,8 +8,9 @@ CONSTANTS
   MaxOpen = 2
   MaxRegs = 1
   Vals = {1}
-  MaxEmit = 0
+  MaxEmit = 2
 VIEW View
-INVARIANTS WellFormed OneRelation TargetNeedsRelation TargetWasIssued RelFilterSelects CachedSelectsSame
+CONSTRAINT StepBound
+INVARIANTS EmitFaultPath WellFormed OneRelation TargetNeedsRelation TargetWasIssued RelFilterSelects CachedSelectsSame
 PROPERTY AP
 CHECK_DEADLOCK FALSE
